@@ -78,6 +78,10 @@ def main():
     t0 = time.time()
     workdir = os.path.join(common.WORK, pid)
     os.makedirs(workdir, exist_ok=True)
+    # two runs of the SAME property share this work directory (driver, staged harness, case files): serialise them
+    import fcntl
+    prop_lock = open(workdir + ".lock", "w")
+    fcntl.flock(prop_lock, fcntl.LOCK_EX)
     known = common.load_known()
     violations, known_hits, notes = [], [], []
     ev = {"property_id": pid, "tier": tier, "seed": seed, "level": "proof", "coverage": {}, "assumptions": [], "wall_s": 0.0,
